@@ -5,7 +5,7 @@ import gen as G
 import codec, targets
 
 MODEL_TARGETS = ["model/De.vo", "model/Reader.vo"]
-COQ_TARGETS = ["props/C04.vo"]
+COQ_TARGETS = ["props/C04.vo", "proofs/ConstsTie.vo"]
 THEOREMS = [("C04", ["C04_nopanic", "C04_datum_nopanic", "C04_fuel_mono", "C04_total", "C04_work_bound", "C04_inbound",
                      "C04_depth_zero", "C04_depth", "C04_seq", "C04_seq_block", "C04_alloc_reader", "C04_alloc_slice"])]
 PROOF_FILES = ["proofs/DeSafetyProofs.v", "proofs/ReaderProofs.v", "proofs/DeProofs.v", "props/C04.v"]
